@@ -1,6 +1,7 @@
 """Structured generators. Every random choice comes from the `random.Random` handed in, so a case
 replays from (VERIF_SEED, property, index) alone."""
 import itertools
+import os
 
 INT_DTYPES = ['int8', 'int16', 'int32', 'int64', 'uint8', 'uint16', 'uint32']
 INT_RANGE = {'int8': (-128, 127), 'int16': (-2 ** 15, 2 ** 15 - 1), 'int32': (-2 ** 31, 2 ** 31 - 1),
@@ -167,6 +168,11 @@ def gen_compute_case(rng, maxpix=48, force=None):
         dtype = 'int64'
         k = [x if x is not None else 2 ** 60 for x in k]
     minv, mind, minn = gen_params(rng, k, n, fb)
+    if dtype in ('float32',) and minv != 'min' and fb <= 4 and rng.random() < 0.3 and not os.environ.get('VERIF_NO_THR32'):
+        # a threshold that float64 can tell from a data value but float32 cannot (just below one of the values)
+        vals_ = [x for x in k if x is not None and abs(x) < 4096]
+        if vals_:
+            minv = [rng.choice(vals_) * 2 ** 40 - 1, 2 ** 40]
     if kind == 'bigint' and minv != 'min' and minv[1] != 1:
         minv = [minv[0] // minv[1], 1]      # a float threshold cannot be compared exactly with int64 beyond 2**53
     if kind == 'fullrange':
